@@ -651,9 +651,9 @@ def run(ctx):
     ctx.flush()
     exhaustive(ctx, im)
     ctx.flush()
-    linearity(ctx, im, 60 if quick else 700, 400 if quick else 3000)
-    causality(ctx, im, 36 if quick else 240, 400 if quick else 3000)
-    shift(ctx, im, 40 if quick else 400, 300 if quick else 3000)
-    permutations(ctx, im, 24 if quick else 240, 200 if quick else 1000)
-    refinement(ctx, im, 63 if quick else 700, 200 if quick else 1500)
+    linearity(ctx, im, 90 if quick else 700, 400 if quick else 3000)
+    causality(ctx, im, 48 if quick else 240, 400 if quick else 3000)
+    shift(ctx, im, 60 if quick else 400, 300 if quick else 3000)
+    permutations(ctx, im, 30 if quick else 240, 200 if quick else 1000)
+    refinement(ctx, im, 84 if quick else 700, 200 if quick else 1500)
     ctx.flush()
